@@ -196,7 +196,7 @@ class DocBuilder:
             ident = g.choice([None, "nope:x"])
         args = self.formal_args(c, kind)
         other = self.other_attrs(c)
-        if FORMALS[kind] and g.chance(self.o["dup_formal"]):
+        if FORMALS[kind] and kind != "Membership" and g.chance(self.o["dup_formal"]):
             # the same formal attribute once more in the same call (same or different value)
             i = g.rng.randrange(len(FORMALS[kind]))
             l = FORMALS[kind][i]
